@@ -1,0 +1,20 @@
+//go:build verif
+
+// Contracts for the deductive verifier under /verif (comment-only file).
+package rt
+
+// runtime.growslice as used by sonic: a new array of capacity >= newCap holding the
+// old elements; it panics when newCap < old.Len, so callers must exclude that.
+//@ func GrowSlice assumed "runtime.growslice (Go runtime)"
+//@   requires old.Len <= newCap && 0 <= old.Len
+//@   ensures fresh(result) && off(result) == 0 && len(result) == old.Len && cap(result) >= newCap
+//@   ensures txt(result) == txt(old)
+//@   ensures forall j int :: (0 <= j && j < old.Len) ==> result[j] == old[j]
+
+// GuardSlice2: the result has the same contents and at least n bytes of spare capacity.
+//@ func GuardSlice2 props C05,C06,C20
+//@   requires 0 <= n && n <= 140737488355328
+//@   ensures len(result) == len(buf) && cap(result) - len(result) >= n
+//@   ensures base(result) == base(buf) || fresh(result)
+//@   ensures base(result) == base(buf) ==> same(result, buf)
+//@   ensures txt(result) == txt(buf)
